@@ -407,9 +407,35 @@ impl Remote {
             },
             Remote::Process(mut child, stdin, _) => {
                 drop(stdin);
+                let pid = child.id() as i64;
                 let _ = child.wait();
+                verif::emit("exit", &[("pidx", pid)]);
             },
         }
+    }
+}
+
+/// Spawn an unrelated child and ask which descriptors it was born with.
+pub fn inherited_by_child() -> Option<String> {
+    let exe = std::env::current_exe().ok()?;
+    let out = Command::new(exe).arg("lsfd").stdin(Stdio::null()).output().ok()?;
+    let text = String::from_utf8_lossy(&out.stdout);
+    for line in text.lines() {
+        if let Some(rest) = line.strip_prefix("FD ") {
+            let mut it = rest.splitn(2, ' ');
+            let fd: i32 = it.next()?.parse().ok()?;
+            let target = it.next().unwrap_or("");
+            if fd > 2 {
+                return Some(format!("descriptor {} ({}) was inherited by a spawned child process", fd, target));
+            }
+        }
+    }
+    None
+}
+
+pub fn lsfd_main() {
+    for (fd, t) in list_fds() {
+        println!("FD {} {}", fd, t);
     }
 }
 
@@ -559,6 +585,8 @@ pub fn run(mode: &str) {
         // announce before running: if the process dies, the driver knows where
         out_line(&json!({"begin": id}));
         let fds_before = list_fds().len();
+        let maps_before = list_shared_maps().len();
+        let lsfd_at = if std::env::var("VERIF_LSFD").is_ok() && id % 7 == 0 { Some(ops.len() / 2) } else { None };
         let mut a0 = Agent::new();
         let mut a1 = Remote::None;
         if two {
@@ -594,6 +622,13 @@ pub fn run(mode: &str) {
         let mut woken = 0;
         'ops: for (i, op) in ops.iter().enumerate() {
             PROGRESS.fetch_add(1, Ordering::SeqCst);
+            if lsfd_at == Some(i) {
+                // C11: nothing the library created or received may be inherited by an unrelated child
+                if let Some(why) = inherited_by_child() {
+                    verdict = json!({"id": id, "ok": false, "step": i, "op": op, "why": why});
+                    break 'ops;
+                }
+            }
             // C03, racing half: receives already blocked when the last sender goes away
             let mut blockers: Vec<Blocker> = Vec::new();
             if let Some(ws) = wakes.get(i) {
@@ -655,7 +690,13 @@ pub fn run(mode: &str) {
             r.finish();
         }
         let fds_after = list_fds().len();
+        let maps_after = list_shared_maps().len();
         verdict["fd_delta"] = json!(fds_after as i64 - fds_before as i64);
+        verdict["map_delta"] = json!(maps_after as i64 - maps_before as i64);
+        verif::emit(
+            "quiesce",
+            &[("fd", fds_after as i64 - fds_before as i64), ("len", maps_after as i64 - maps_before as i64)],
+        );
         out_line(&verdict);
     }
 }
